@@ -363,7 +363,10 @@ pub struct RunOpts {
 /// Parent driver for one property.  Returns the process exit code.
 pub fn run_check<P: Property>(o: &RunOpts) -> i32 {
     let t0 = Instant::now();
-    let total = o.runs_override.unwrap_or_else(|| P::runs(o.tier));
+    // VERIF_SCALE multiplies the number of seeded runs of a tier (default 1): the
+    // thorough tier is "as deep as built", and deeper is just more runs.
+    let scale: u64 = std::env::var("VERIF_SCALE").ok().and_then(|s| s.parse().ok()).filter(|s| *s >= 1).unwrap_or(1);
+    let total = o.runs_override.unwrap_or_else(|| P::runs(o.tier) * scale);
     let w = o.workers.max(1).min(total.max(1));
     let dir = scratch_dir();
     let hang_ms: u64 = std::env::var("VERIF_HANG_MS").ok().and_then(|s| s.parse().ok()).unwrap_or(30_000);
